@@ -33,10 +33,12 @@ def two_candles():
     return c1, c2
 
 
-def run_mode(repo, mode, samples, prices=("p",), market_reaction=False):
+def run_mode(repo, mode, samples, prices=("p",), market_reaction=False, stale_final=False):
     """abstract execution of one 2-minute span with resting orders at the given price atoms; returns fill events (price, time).
     market_reaction: the hook of the first fill submits a MARKET order at the price atom `m` (as Sandbox.market_order does)."""
-    case = S.SimCase(list(prices))
+    # stale_final: the active list still holds an order that became final at the end of the previous chunk (e.g. a market entry
+    # executed by the flush after the strategies) - a twin of the first order, already cancelled
+    case = S.SimCase(list(prices) + ([prices[0]] if stale_final else []), inactive=[len(prices)] if stale_final else None)
 
     def mk(dec):
         it = S.build(repo, case, samples, dec)
@@ -99,7 +101,7 @@ def _work(args):
         err = None
         for mode in ("normal", "fast"):
             try:
-                outs = run_mode(repo, mode, samples)
+                outs = run_mode(repo, mode, samples, stale_final=True)
             except AnalysisError as e:
                 err = f"{mode}: {e}"
                 break
